@@ -1,5 +1,6 @@
 import LdkModel.Driver.C06
 import LdkModel.Model.OnchainClaims
+import LdkModel.Model.CloseCfg
 namespace Ldk.Driver
 open Ldk Ldk.Onchain
 
@@ -30,22 +31,33 @@ def showBalances (l : Ledger) : String :=
     let tag := if t.1 == 0 then "A" else if t.1 == 1 then "C" else if t.1 == 2 then "T" else "P"
     s!"{tag}:{t.2.1}:{t.2.2}")
 
-/-- ops:  close <height> <item>…      → balances (sorted)
-          claim <idx> <height> <net>  | peer <idx> <height> | block <height> [<scenario tag>]   → balances
+/-- `kind:sat:claimableFrom:contestedFrom` (the csv comes from the closure configuration) -/
+def rawItemOf (s : String) : Option Item :=
+  match splitOnChar s ':' with
+  | [k, v, f, c] => (kindOf k).map fun kind =>
+      { kind := kind, sat := nat! v, claimableFrom := nat! f, contestedFrom := nat! c, csv := none }
+  | _ => none
+
+/-- balances, then the value handed out as SpendableOutputs so far -/
+def showLedger (l : Ledger) : String := s!"{showBalances l} | {spendableTotal l}"
+
+/-- ops:  close <height> <holderClose 0|1> <holder our_to_self_delay> <counterparty our_to_self_delay> <item>…
+                                      → balances (sorted) `|` spendable so far          (Model/CloseCfg.lean `closeWith`)
+          claim <idx> <height> <net>  | peer <idx> <height> | block <height> [<scenario tag>]   → the same
           totals                      → `<balances owned> <spendable> <fees> <lost> <entitlement>` -/
 def c07close : Drv where
   σ := Ledger
   init := { best := 0, entries := [] }
   step := fun l ws =>
     match ws with
-    | "close" :: h :: items =>
-      match items.mapM itemOf with
-      | some is => let l' := close (nat! h) is; (l', showBalances l')
+    | "close" :: h :: hc :: hs :: cs :: items =>
+      match items.mapM rawItemOf with
+      | some is => let l' := closeWith { holderClose := hc == "1", holderSelected := nat! hs, counterpartySelected := nat! cs } (nat! h) is; (l', showLedger l')
       | none => (l, "bad-op")
-    | ["claim", i, h, net] => let l' := step l (.claim (nat! i) (nat! h) (nat! net)); (l', showBalances l')
-    | ["peer", i, h] => let l' := step l (.peerClaim (nat! i) (nat! h)); (l', showBalances l')
-    | ["block", h] => let l' := step l (.block (nat! h)); (l', showBalances l')
-    | ["block", h, _tag] => let l' := step l (.block (nat! h)); (l', showBalances l')
+    | ["claim", i, h, net] => let l' := step l (.claim (nat! i) (nat! h) (nat! net)); (l', showLedger l')
+    | ["peer", i, h] => let l' := step l (.peerClaim (nat! i) (nat! h)); (l', showLedger l')
+    | ["block", h] => let l' := step l (.block (nat! h)); (l', showLedger l')
+    | ["block", h, _tag] => let l' := step l (.block (nat! h)); (l', showLedger l')
     | ["totals"] => (l, s!"{balanceTotal l} {spendableTotal l} {feesTotal l} {lostTotal l} {entitlement l}")
     | _ => (l, "bad-op")
 
